@@ -13,7 +13,7 @@ from mc.scratch import scratch_dir
 PROPERTY = "C10"
 LEVEL = "model_checking"
 TECHNIQUE = "explicit-state bounded-exhaustive exploration of real descriptor-driven disks against a concatenation model"
-RULE = ("VMDK descriptors with 1-3 extents: every kind in {FLAT, VMFS, SPARSE, VMFSSPARSE, SESPARSE} x size in "
+RULE = ("VMDK descriptors with 1-3 extents: every kind in {FLAT, VMFS, SPARSE, VMFSSPARSE, SESPARSE, ZERO} x size in "
         "{16, 24, 40, 4104, 20} sectors x access {RW, RDONLY} x file name {plain, spaces, inner quote, non-ASCII, emoji} (full "
         "product for <= 2 extents, every kind triple for 3); VMDK([handles]) with 1-3 sparse/raw handles; Parallels "
         "file names with 14 characters special to str.splitlines / str.strip; flat extents whose data begins with a complete "
